@@ -42,9 +42,11 @@ PROPS = {
              "x 1-4 executions per process (re-executions, partial executions) whose calls are interleaved like parallel tests, with failing calls (invalid JSON/YAML, failing matcher), "
              "per-call Update options and pre-existing foreign entries; after EVERY call the observed outcome is compared with a slot model and both files are re-parsed with the reference parser. "
              "non-trivial = >= 2 tests and at least one of: prefix-related names, re-execution, interleaving, calls after a failing call, >= 10 calls, header-like body, per-call update option; "
-             "distinct = distinct canonical JSON of the history",
-        assumptions=ASSUME_WB + ["interleavings are sequentially consistent (one call at a time); real parallelism is C06"],
-        stages=[dict(name="history", run="^TestC03_", quick=600, thorough=5000, shards_quick=4, shards_thorough=16)],
+             "distinct = distinct canonical JSON of the history. concurrent_slots stage: the C06 scenario/schedule generator on the controlled scheduler (2-4 tests sharing a file, 0-3 preemptions): "
+             "every call addresses its own slot and no slot is lost or reverted by another test's concurrent write",
+        assumptions=ASSUME_WB + ["the history stage interleaves calls one at a time; preemption inside a call is explored by the concurrent_slots stage (statement granularity) and exhaustively by C06"],
+        stages=[dict(name="history", run="^TestC03_", quick=600, thorough=5000, shards_quick=4, shards_thorough=16),
+                dict(name="concurrent_slots", engine="sched", run="^TestC03_ConcurrentSlots$", quick=200, thorough=2000, shards_quick=4, shards_thorough=16)],
     ),
     "C04": dict(
         rule="case = file recorded by a first process (1-3 tests, 1-12 calls each over all five APIs, plus foreign pre-existing entries), a second process with updating enabled "
